@@ -2335,12 +2335,32 @@ class WBEMConnection:  # pylint: disable=too-many-instance-attributes
 
         # #  Original code return tup_tree
 
+        def rsp_boolean(value):
+            """
+            Convert a boolean value from the response (None, the text of a
+            VALUE element, or a list of these for VALUE.ARRAY) into bool,
+            raising CIMXMLParseError or TypeError if it is not boolean.
+            """
+            if value is None:
+                return None
+            if isinstance(value, list):
+                return [rsp_boolean(item) for item in value]
+            if isinstance(value, str):
+                return tp.unpack_boolean(value)
+            raise TypeError(
+                _format("Invalid type for a boolean value: {0}", type(value)))
+
         def rsp_cimvalue(what, value, type_):
             """
             Convert a value from the response into its CIM data type,
             raising CIMXMLParseError if value and type do not match.
             """
             try:
+                if type_ == 'boolean':
+                    # The text of a VALUE element is 'true' or 'false' in any
+                    # lexical case; cimvalue() would apply the Python truth
+                    # test to that text ('FALSE' is a non-empty string).
+                    return rsp_boolean(value)
                 return cimvalue(value, type_)
             except (ValueError, TypeError, OverflowError) as exc:
                 new_exc = CIMXMLParseError(
